@@ -126,6 +126,12 @@ func ReadUint16Slice(r Reader, c []uint16) (n int64, err error) {
 		size = len(c) << 1
 	}
 
+	// Peeks at least one word, so that a stream that ended early
+	// returns an error instead of making no progress.
+	if size < 2 {
+		size = 2
+	}
+
 	// Then returns the written bytes
 	if slice, err = r.Peek(size); err != nil {
 		return int64(len(slice)), err
@@ -201,6 +207,12 @@ func ReadUint32Slice(r Reader, c []uint32) (n int64, err error) {
 		size = len(c) << 2
 	}
 
+	// Peeks at least one word, so that a stream that ended early
+	// returns an error instead of making no progress.
+	if size < 4 {
+		size = 4
+	}
+
 	// Then returns the written bytes
 	if slice, err = r.Peek(size); err != nil {
 		return int64(len(slice)), err
@@ -274,6 +286,12 @@ func ReadUint64Slice(r Reader, c []uint64) (n int64, err error) {
 	size := r.Size()
 	if len(c)<<3 < size {
 		size = len(c) << 3
+	}
+
+	// Peeks at least one word, so that a stream that ended early
+	// returns an error instead of making no progress.
+	if size < 8 {
+		size = 8
 	}
 
 	// Then returns the written bytes
